@@ -1,7 +1,6 @@
 (* Proofs about Model/RestRuntime.v (C19). *)
 From Coq Require Import List ZArith Bool String Lia Arith Znumtheory.
 From Shoot Require Import Model.RestRuntime.
-(* (keep this comment line: lib.closure needs a non-identifier after the Require) *)
 Import ListNotations.
 Local Close Scope Z_scope.   (* Znumtheory opens it *)
 
